@@ -35,17 +35,18 @@ QF_THOROUGH = [
     ('filters__quotientfilter.rs', 'c13_qf_insert_b2r1_f%d' % f, 'bounded(4 slots, 1-bit remainders; all 256 fingerprint sets x this fingerprint)') for f in range(8)
 ]
 QF_UNION_QUICK = [('filters__quotientfilter.rs', 'c06_qf_union_b1r1_a%d' % a, 'bounded(2 slots, 1-bit remainders; receiving set %d, every other set)' % a) for a in (3, 9)]
-QF_UNION_THOROUGH = [('filters__quotientfilter.rs', 'c06_qf_union_b1r1_a%d' % a, 'bounded(2 slots, 1-bit remainders; receiving set %d, every other set)' % a) for a in (0, 1, 2, 4, 5, 6, 8, 10, 12)] + [('filters__quotientfilter.rs', 'c06_qf_union_b1r2', 'bounded(2 slots, 2-bit remainders; all pairs of sets)'),
+QF_UNION_THOROUGH = [('filters__quotientfilter.rs', 'c06_qf_union_b2r1_two_pending_runs', 'bounded(4 slots: other = full table with two pending run quotients, every receiving subset)')] + [('filters__quotientfilter.rs', 'c06_qf_union_b1r1_a%d' % a, 'bounded(2 slots, 1-bit remainders; receiving set %d, every other set)' % a) for a in (0, 1, 2, 4, 5, 6, 8, 10, 12)] + [('filters__quotientfilter.rs', 'c06_qf_union_b1r2', 'bounded(2 slots, 2-bit remainders; all pairs of sets)'),
                      ('filters__quotientfilter.rs', 'c06_qf_union_b2r1', 'bounded(4 slots, 1-bit remainders; all pairs of sets)')]
 
-BLOOM_K = [('filters__bloomfilter.rs', 'c01_bloom_insert_query_step', 'bounded(m=7, k=2, 3 keys; every hash function, arbitrary bit array)'),
+BLOOM_K = [('filters__bloomfilter.rs', 'c01_bloom_insert_query_step_m8', 'bounded(m=8, k=2, 3 keys; every hash function, arbitrary bit array)'),
            ('filters__bloomfilter.rs', 'c06_bloom_union_clear_step', 'bounded(m=7, k=2; arbitrary bit arrays)')]
 CUCKOO_K = [('filters__cuckoofilter.rs', 'c14_cuckoo_delete_query_step', 'bounded(2 buckets x 2 slots, 2-bit fingerprints, 3 keys; every hash function, arbitrary table)'),
             ('filters__cuckoofilter.rs', 'c12_cuckoo_restore_state_reverse_order', 'bounded(log <= 3; 2x2 table)')]
 
 HASHITER_K = [('hash_utils.rs', 'hashiter_setup_f_m1_k3', 'bounded(m=1, k=3, 3 keys; every hash function): setup_f + iter_for against the documented formula'),
               ('hash_utils.rs', 'hashiter_setup_f_m4_k3', 'bounded(m=4, k=3)')]
-HASHITER_K_THOROUGH = [('hash_utils.rs', 'hashiter_setup_f_m7_k2', 'bounded(m=7, k=2)')]
+HASHITER_K_THOROUGH = [('hash_utils.rs', 'hashiter_setup_f_m7_k2', 'bounded(m=7, k=2)'),
+                       ('filters__bloomfilter.rs', 'c01_bloom_insert_query_step_m7', 'bounded(m=7, k=2, 3 keys; every hash function, arbitrary bit array)')]
 CMS_ADD_QUICK = [('countminsketch.rs', 'c02_cms_add_u8_1x1', 'bounded((w,d)=(1,1), u8, 3 keys; every hash function, arbitrary table)'),
                  ('countminsketch.rs', 'c02_cms_add_u8_2x3', 'bounded((w,d)=(2,3), u8)'),
                  ('countminsketch.rs', 'c02_cms_add_u16_2x2', 'bounded((w,d)=(2,2), u16)'),
